@@ -50,5 +50,6 @@ Example C10_same_size_twice :
   | _ => false end = true.
 Proof. vm_compute. reflexivity. Qed.
 
+Print Assumptions C10_same_indices.
 Print Assumptions C10_block_lockstep.
 Print Assumptions C10_every_history.
